@@ -31,9 +31,9 @@ r = sh("/verif/tools/baseline.py", env=dict(env, VERIF_REPO=wt))
 meta["tests_with_change"] = r.stdout.strip().split("\n")[0]
 meta["ran"].append("VERIF_REPO=%s tools/baseline.py -> %s" % (wt, meta["tests_with_change"]))
 r1 = sh("/venv/bin/python %s" % demo, cwd=wt, env=env)
-sh("git -C %s stash" % wt)
+sh("git -C %s apply -R %s" % (wt, patch))   # (git stash is shared between worktrees: not used)
 r0 = sh("/venv/bin/python %s" % demo, cwd=wt, env=env)
-sh("git -C %s stash pop" % wt)
+sh("git -C %s apply %s" % (wt, patch))
 meta["demo_exit_with_change"] = r1.returncode
 meta["demo_exit_without_change"] = r0.returncode
 meta["demo_output"] = (r1.stdout + r1.stderr).strip().split("\n")[-3:]
